@@ -454,7 +454,8 @@ def sched_oracle(case, obs):
     return w
   # observers after the fact: further next() calls on the same iterator when everything has ended
   post = obs.get('post') or []
-  _, fails = sequential(case)
+  seq_outs, fails = sequential(case)
+  delivered = list(t0['received'])
   end = t0['outcome']
   k = case.get('num_steps')
   early = k is not None and end == {'raise': 'StopIteration', 'args': []}
@@ -465,6 +466,16 @@ def sched_oracle(case, obs):
     if early:
       continue
     if fails and end == {'raise': 'ValueError'}:
+      # C05 / C13: the failure is never turned into a clean end and never lost - but an element a producer had
+      # already queued (it was past its `enqueue_done` test when the failure was recorded) may still be handed
+      # out first: "already queued elements are not duplicated" is what the property says about them.  A later
+      # next() may therefore deliver a value, provided it is a row of the sequential run not delivered before.
+      if e is None and 'value' in pr:
+        delivered.append(pr['value'])
+        if not sub_multiset(delivered, seq_outs):
+          return (f'the iteration failed ({end}) and a later next() #{j + 1} delivered {pr["value"]!r}, which the '
+                  f'sequential evaluation does not produce (or not that often): delivered so far {delivered}')
+        continue
       if e is None or e['raise'] != 'ValueError' or pr['exc']['cls'] not in (obs.get('fault_classes') or []):
         return (f'the iteration failed ({end}, classes {obs.get("fault_classes")}) but a later next() #{j + 1} on the same '
                 f'iterator ended with {pr}: the recorded failure was lost')
